@@ -91,3 +91,92 @@ def schema_features(ast, counters):
                 counters["item:%s:%s" % (k, n if n in ("*", "+") else "fixed")] += 1
             if it.get("required"):
                 counters["item:required"] += 1
+
+
+_MEM = {}
+
+
+def mem_loader_class():
+    if "cls" not in _MEM:
+        ZConfig = zc()
+        import ZConfig.loader
+
+        class MemLoader(ZConfig.loader.ConfigLoader):
+            """ConfigLoader serving resources from a dict (documented override: openResource)."""
+            resources = None
+
+            def openResource(self, url):
+                url = str(url)
+                if url not in self.resources:
+                    raise ZConfig.ConfigurationError("error opening resource %s: no such resource" % url, url)
+                return self.createResource(io.StringIO(self.resources[url]), url)
+        _MEM["cls"] = MemLoader
+    return _MEM["cls"]
+
+
+def real_load_resources(schema, resources, main=MAIN, overrides=()):
+    """Like real_load, for a set of in-memory resources with %include between them."""
+    ZConfig = zc()
+    try:
+        if overrides:
+            from ZConfig import cmdline
+
+            class MemExt(cmdline.ExtendedConfigLoader):
+                def openResource(self, url):
+                    url = str(url)
+                    if url not in resources:
+                        raise ZConfig.ConfigurationError("error opening resource %s" % url, url)
+                    return self.createResource(io.StringIO(resources[url]), url)
+            loader = MemExt(schema)
+            for o in overrides:
+                loader.addOption(o)
+        else:
+            loader = mem_loader_class()(schema)
+            loader.resources = resources
+        cfg, handler = loader.loadURL(main)
+        return ("ok", cfg, handler)
+    except ZConfig.ConfigurationError as e:
+        return ("reject", e)
+    except RecursionError as e:
+        return ("internal", e, "recursion", "recursion")
+    except Exception as e:  # noqa
+        zf, inner = innermost_zconfig_frame(e)
+        return ("internal", e, zf, inner)
+
+
+def materialise(resources, main, prefix="file:///zcv/"):
+    """Write in-memory resources to real files under a fresh temporary directory.
+
+    -> (resources keyed by the real file:/// URLs, real main URL, directory to remove)."""
+    import os
+    import tempfile
+    from urllib.request import pathname2url
+    root = tempfile.mkdtemp(prefix="zcv-files-")
+    out = {}
+    newmain = None
+    for url, text in resources.items():
+        assert url.startswith(prefix), url
+        rel = url[len(prefix):]
+        path = os.path.join(root, *rel.split("/"))
+        os.makedirs(os.path.dirname(path), exist_ok=True)
+        with open(path, "w", encoding="utf-8", newline="\n") as f:
+            f.write(text)
+        real = "file://" + pathname2url(path)
+        out[real] = text
+        if url == main:
+            newmain = real
+    return out, newmain, root
+
+
+def real_load_url(schema, url, overrides=()):
+    ZConfig = zc()
+    try:
+        cfg, handler = ZConfig.loadConfig(schema, url, overrides)
+        return ("ok", cfg, handler)
+    except ZConfig.ConfigurationError as e:
+        return ("reject", e)
+    except RecursionError as e:
+        return ("internal", e, "recursion", "recursion")
+    except Exception as e:  # noqa
+        zf, inner = innermost_zconfig_frame(e)
+        return ("internal", e, zf, inner)
